@@ -1,6 +1,7 @@
 """C06: minimum separation of groups and of layers split from one group."""
 from __future__ import annotations
 
+from sa.anchors import is_helper
 from sa import terms as T
 from sa.core import AnalysisError
 from sa.rules.baseheight import cbh_sites, _phi_leaves
@@ -103,7 +104,7 @@ def same_selection_at_decision_time(ctx, rule='C06-R2'):
     if mg is None:
         raise AnalysisError(rule, 'anchor method vanished: _merge_close_groups')
     ctx.saw(mg)
-    ex2 = Executor(p, inline=lambda q, d: q.startswith('ampycloud.data.') and not q.endswith('.metarize'), max_depth=6)
+    ex2 = Executor(p, inline=lambda q, d: (q.startswith('ampycloud.data.') or is_helper(p, q)) and not q.endswith('.metarize'), max_depth=6)
     s2 = ex2.run(mg)
     n = 0
     for e in s2.events:
